@@ -448,6 +448,22 @@ func textVariants(text string, full bool) []string {
 			out = append(out, strings.ReplaceAll(join(nl), "\n", "\r\n"))
 		}
 	}
+	// EXT-X-ENDLIST may appear anywhere in a media playlist (RFC 8216 4.3.3.4): right after the header and after every
+	// URI line
+	for ei, l := range lines {
+		if l != "#EXT-X-ENDLIST" {
+			continue
+		}
+		rest := append(append([]string{}, lines[:ei]...), lines[ei+1:]...)
+		for i := 1; i <= len(rest); i++ {
+			prev := rest[i-1]
+			if i != 1 && (strings.HasPrefix(prev, "#") || prev == "") {
+				continue // only after #EXTM3U and after URI lines (never between a segment's tags and its URI)
+			}
+			nl := append(append(append([]string{}, rest[:i]...), "#EXT-X-ENDLIST"), rest[i:]...)
+			out = append(out, join(nl))
+		}
+	}
 	// attribute permutations and an unknown attribute at every position
 	for li, l := range lines {
 		for _, tag := range attrTags {
